@@ -226,6 +226,13 @@ REGISTRY = {
                         "the restart theorem covers merge-free histories; merges + adoption are exercised by the correspondence run and treated in C06",
                         "batch ids non-zero (snowflake ids are positive); file-system calls do not fail"],
     },
+    "C13": {
+        "corr": lambda tier, seed: corr_engine("C13", tier, seed, "restarts,batches,merges,bigvals", 160, 4000, ops=30,
+                                               dflags="", oracle_props=["C13"]),
+        "assumptions": ["a Sync event (fsync / msync) makes the bytes written so far durable: the OS contract, not modelled further",
+                        "the I/O event sequence of every call (kind, file, byte count, order) is compared between the real engine (hook H1/H2) and the model; the oracle recomputes written/synced bytes per file from the real events",
+                        "the invariant theorem covers merge-free histories; Merge only rotates (flushing) and writes into the side directory"],
+    },
     "C14": {
         "corr": lambda tier, seed: corr_engine("C14", tier, seed, "restarts,batches,merges,bigvals", 60, 1500, ops=25,
                                                dflags=NOEV, oracle_props=["C14"], extra="-variants 3"),
